@@ -47,6 +47,22 @@ TWO3_FORCED = [((("aab", "bca", "cba"), "twosymcycle"), (("acb", "bba", "cab"), 
                ((("aba", "bcc", "cac"), "two"), (("acc", "bab", "cbc"), "twosymcycle"))]
 
 
+# specifications that are isomorphic only up to unrolling a recursion: one class of the first is matched with two (three)
+# classes of the second (a^n | b^n against alternating words; the same over three letters with cyclic succession)
+UNROLL = [((("ab", "ba"), "ab"), (("aa", "bb"), "ab")),
+          ((("ab", "ac", "ba", "bc", "ca", "cb"), "abc"), (("aa", "bb", "cc", "ac", "ba", "cb"), "abc")),
+          ((("ab", "ba"), "ab", "a"), (("aa", "bb"), "ab", "b"))]
+
+
+def unroll_pairs():
+    out = []
+    for a, b in UNROLL:
+        for fl1, fl2 in (("default", "default"), ("forest", "default"), ("default", "forget")):
+            out.append(((a, "plain", fl1), (b, "plain", fl2)))
+            out.append(((b, "plain", fl1), (a, "plain", fl2)))
+    return out
+
+
 def two3_pairs():
     from ..universes.words import swap_word
 
@@ -63,9 +79,10 @@ def mk_searcher(start_cfg, pk, flavour="default"):
     from comb_spec_searcher import CombinatorialSpecificationSearcher
     from comb_spec_searcher.rule_db import RuleDBForest, RuleDBForgetStrategy
 
-    pats, alph = start_cfg
-    pats = list(pats) + ([pats[0] + pats[0][-1]] if PACKS[pk].get("inf") else [])
-    start = W.WC("", pats, alph)
+    pats, alph = start_cfg[:2]
+    prefix = start_cfg[2] if len(start_cfg) > 2 else ""
+    pats = list(pats) + ([pats[0] + pats[0][-1]] if PACKS[pk].get("inf") and pats else [])
+    start = W.WC(prefix, pats, alph)
     db = {"default": None, "forget": RuleDBForgetStrategy(), "forest": RuleDBForest()}[flavour]
     return start, W.make_pack(**PACKS[pk]), CombinatorialSpecificationSearcher(start, W.make_pack(**PACKS[pk]), ruledb=db)
 
@@ -115,7 +132,7 @@ def pair_job(args):
 
     c1, _, se1 = mk_searcher(s1cfg, pk1, fl1)
     c2, _, se2 = mk_searcher(s2cfg, pk2, fl2)
-    tid = "%s/%s/%s~%s/%s/%s" % (",".join(s1cfg[0]), pk1, fl1, ",".join(s2cfg[0]), pk2, fl2)
+    tid = "%s/%s/%s~%s/%s/%s" % (",".join(s1cfg[0]) + ":" + ":".join(s1cfg[1:]), pk1, fl1, ",".join(s2cfg[0]) + ":" + ":".join(s2cfg[1:]), pk2, fl2)
     try:
         sp1, sp2 = se1.auto_search(), se2.auto_search()
     except Exception as e:
@@ -212,7 +229,7 @@ def run(tier: str, seed: int, pid="C12") -> int:
         # three-letter classes related by letter renamings: children of the root rule match by 3-cycles
         abc = [((a, pk1, "default"), (b, pk2, "default")) for a in ABC3 for b in ABC3 for pk1 in ("plain", "symcycle") for pk2 in ("plain",)]
         two3 = [((a[0], a[1], "default"), (b[0], b[1], "default")) for a, b in two3_pairs()[: (12 if tier == "quick" else 1000)]]
-        res = [r for r in pmap(pair_job, mirrors + abc + two3 + pairs, procs=16, chunk=2) if r]
+        res = [r for r in pmap(pair_job, mirrors + abc + two3 + unroll_pairs() + pairs, procs=16, chunk=2) if r]
         seen, traces = set(), []
         for r in res:
             if r["tid"] in seen:
